@@ -32,6 +32,7 @@ type c08Case struct {
 func genC08(t *rapid.T) c08Case {
 	in := GenIntent(t)
 	lay := c04Partition(t, in) // blocks, re-opened types/REST paths/endpoints, files, import DAG
+	redeclared := c08RedeclareFields(t, lay)
 	indent := pick(t, []string{"    ", "  ", "\t", " ", "   ", "\t\t", " \t", "        "}, "indent")
 	var noise []int
 	if rapid.IntRange(0, 2).Draw(t, "usenoise") != 0 {
@@ -66,6 +67,9 @@ func genC08(t *rapid.T) c08Case {
 	cl := map[string]bool{}
 	for _, cls := range lay.Classes {
 		cl[cls] = true
+	}
+	for _, k := range redeclared {
+		cl["field_redeclared_"+k] = true
 	}
 	for _, n := range order {
 		for _, p := range posOf[n] {
@@ -111,6 +115,66 @@ func genC08(t *rapid.T) c08Case {
 	}
 	sort.Strings(c.Classes)
 	return c
+}
+
+// c08RedeclareFields: where a type is re-opened, some fields of one part are declared again (same name
+// and type, no attributes) in another part, so that a *field* is declared n times too ("an element
+// declared n times carries n locations"). Returns the kinds of type expression that were re-declared.
+func c08RedeclareFields(t *rapid.T, lay c04Layout) []string {
+	type key struct{ app, typ string }
+	parts := map[key][]*TypeDecl{}
+	var order []key
+	for _, f := range lay.Files {
+		for _, b := range f.Blocks {
+			for _, td := range b.Types {
+				if td.Kind != "tuple" && td.Kind != "relation" {
+					continue
+				}
+				k := key{appKey(b.Name), td.Name}
+				if _, ok := parts[k]; !ok {
+					order = append(order, k)
+				}
+				parts[k] = append(parts[k], td)
+			}
+		}
+	}
+	var kinds []string
+	for _, k := range order {
+		ps := parts[k]
+		if len(ps) < 2 || rapid.IntRange(0, 3).Draw(t, "redeclare") == 0 {
+			continue
+		}
+		n := rapid.IntRange(1, 3).Draw(t, "nredeclare")
+		for i := 0; i < n; i++ {
+			from := ps[rapid.IntRange(0, len(ps)-1).Draw(t, "redeclfrom")]
+			to := ps[rapid.IntRange(0, len(ps)-1).Draw(t, "redeclto")]
+			if from == to || len(from.Fields) == 0 {
+				continue
+			}
+			f := from.Fields[rapid.IntRange(0, len(from.Fields)-1).Draw(t, "redeclfield")]
+			dup := false
+			for _, g := range to.Fields {
+				if g.Name == f.Name {
+					dup = true
+				}
+			}
+			if dup {
+				continue
+			}
+			nf := Field{Name: f.Name, T: f.T}
+			nf.T.Meta = Meta{}
+			to.Fields = append(to.Fields, nf)
+			switch {
+			case f.T.Wrap != "":
+				kinds = append(kinds, "collection")
+			case len(f.T.RefPath) > 0:
+				kinds = append(kinds, "reference")
+			default:
+				kinds = append(kinds, "primitive")
+			}
+		}
+	}
+	return kinds
 }
 
 // ---------- reading locations out of the model ----------
